@@ -1,4 +1,4 @@
-import json, os, subprocess, sys, time
+import json, os, subprocess, sys, time, shutil
 import driver
 from driver import Check, ToolError, log
 
@@ -98,6 +98,25 @@ def c17(ck):
                     tlc_workers=8 if ck.tier == "quick" else 12, harness_workers=6, timeout=3400)
 
 
+def suite_frames(ck):
+    """The repository's own test suite, built with the hooks, records every render it performs; all of them must be
+    behaviours of LiquidFrames."""
+    import subprocess, glob
+    tdir = os.path.join(driver.WORK, "repo_target")
+    out = os.path.join(driver.WORK, "%s_%s_suite.frames.0" % (ck.prop, ck.tier))
+    if os.path.exists(out):
+        os.remove(out)
+    env = dict(os.environ, CARGO_TARGET_DIR=tdir, CARGO_NET_OFFLINE="true", LIQUID_VERIF_TRACE=out,
+               RUSTFLAGS="--cfg liquid_verif")
+    driver.log("[%s] stage suite-frames: cargo test (hooks on) -> hook traces" % ck.prop)
+    r = subprocess.run(["cargo", "test", "--workspace", "--lib", "--tests", "--no-fail-fast", "--offline"], cwd="/repo", env=env,
+                       stdout=subprocess.PIPE, stderr=subprocess.STDOUT, text=True)
+    shutil.rmtree(tdir, ignore_errors=True)
+    if not os.path.exists(out):
+        raise driver.ToolError("the hooked test suite recorded nothing: " + r.stdout[-1500:])
+    ck.frames_stage("suite-frames", [out], split=4)
+
+
 def c18(ck):
     ck.rule = ("every operation sequence over {PushPlain d, PushSandbox d, PushGlobal, Pop, SetGlobal k v, SetIndex k v} "
                "from every one of the 9 base maps up to the stated length is one TLC state and one replay record; "
@@ -107,10 +126,16 @@ def c18(ck):
         "values are scalars and one-key objects; paths have length 1..2 over {a,b} x {x,size,y}",
         "the harness observes only through the public Runtime trait (try_get, get, roots, get_index, registers)",
     ]
+    # LiquidFrames: the same runtime at the grain of one delegation step per action, tied to LiquidRuntime's declarative
+    # definitions by invariants; the hook traces of the replayed histories must be behaviours of it (Trace_Frames)
     if ck.tier == "quick":
-        ck.replay_stage("len3", "MC_C18", "MC_C18_quick.cfg")
+        ck.model_stage("frames-model", "MC_Frames", "MC_Frames_k1f5.cfg", tlc_workers=4)
+        ck.replay_stage("len3", "MC_C18", "MC_C18_quick.cfg", frames=True, frames_max_events=2500000)
     else:
-        ck.replay_stage("len3", "MC_C18", "MC_C18_quick.cfg")
+        ck.model_stage("frames-model-1key-6frames", "MC_Frames", "MC_Frames_k1f6.cfg", tlc_workers=8)
+        ck.model_stage("frames-model-2keys-5frames", "MC_Frames", "MC_Frames_k2f5.cfg", tlc_workers=8)
+        ck.replay_stage("len3", "MC_C18", "MC_C18_quick.cfg", frames=True)
+        suite_frames(ck)
         ck.replay_stage("len4", "MC_C18", "MC_C18_t4.cfg", tlc_workers=10, harness_workers=5, timeout=3000)
         ck.model_stage("states5", "MC_C18", "MC_C18_m5.cfg", tlc_workers=12, timeout=3000)
         ck.model_stage("states6reduced", "MC_C18", "MC_C18_m6r.cfg", tlc_workers=12, timeout=3000)
@@ -180,11 +205,11 @@ def c04(ck):
     ck.assumptions = ["ASCII names and values", "partials compiled eagerly (C19 covers the other policies)",
                       "outcome compared as output text or error-ness, not error message"]
     if ck.tier == "quick":
-        ck.replay_stage("n3", "MC_C04", "MC_C04_quick.cfg")
+        ck.replay_stage("n3", "MC_C04", "MC_C04_quick.cfg", frames=True)
         deep_random(ck, 1200)
     else:
         deep_random(ck, 40000)
-        ck.replay_stage("n3", "MC_C04", "MC_C04_quick.cfg")
+        ck.replay_stage("n3", "MC_C04", "MC_C04_quick.cfg", frames=True)
         ck.replay_stage("n4", "MC_C04", "MC_C04_n4.cfg", tlc_workers=12, harness_workers=4, timeout=3400)
         ck.replay_stage("n3x3names", "MC_C04", "MC_C04_3names.cfg", tlc_workers=12, timeout=3400)
 
